@@ -76,6 +76,26 @@ int ops_trav(int n, char **a) {
         free(out); free(dist);
         return 1;
     }
+    if (isop(op, "diskmap") && n == 3) {
+        // gridDiskDistancesSafe with canonical output: (cell, distance) pairs sorted by cell, zero slots removed
+        H3Index h = pH(a[1]); int k = (int)pI(a[2]);
+        int64_t sz = 0; H3Error e = H3_EXPORT(maxGridDiskSize)(k, &sz);
+        if (e) { outErr(e); return 1; }
+        H3Index *out = xbuf((size_t)sz, sizeof(H3Index)); int *dist = xbuf((size_t)sz, sizeof(int));
+        e = H3_EXPORT(gridDiskDistancesSafe)(h, k, out, dist);
+        if (e) outErr(e);
+        else {
+            // selection sort on indexes (small disks)
+            int64_t m = 0;
+            for (int64_t i = 0; i < sz; i++) if (out[i]) { out[m] = out[i]; dist[m] = dist[i]; m++; }
+            for (int64_t i = 1; i < m; i++) { H3Index x = out[i]; int dd = dist[i]; int64_t j = i - 1;
+                while (j >= 0 && out[j] > x) { out[j + 1] = out[j]; dist[j + 1] = dist[j]; j--; }
+                out[j + 1] = x; dist[j + 1] = dd; }
+            printf("ok "); outPairs(out, dist, m); printf("\n");
+        }
+        free(out); free(dist);
+        return 1;
+    }
     if (isop(op, "ring") && n == 3) {
         H3Index h = pH(a[1]); int k = (int)pI(a[2]);
         int64_t sz = k == 0 ? 1 : (k > 0 ? 6 * (int64_t)k : 0);
